@@ -32,12 +32,12 @@ C05_INVS = ["TypeOK", "InterestOK", "CountsOK", "PollArrayOK", "ChangelistOK"]
 
 
 def consts(backend, D, *, nfd=2, nev=3, masks=(1, 2, 3, 4, 5, 6, 7), ets=(0, 1), keeper=(), acts=("add", "del", "close", "wait"),
-           avoid=True):
+           avoid=True, kinds=None):
     if backend == "select":
         masks = [m for m in masks if m < 4]
     if not backend.startswith("epoll"):
         ets = (0,)
-    return {"Backend": backend, "NFd": nfd, "NEv": nev, "Masks": set(masks), "ETs": set(ets), "Keeper": set(keeper),
+    return {"Backend": backend, "NFd": nfd, "NEv": nev, "Masks": set(masks), "ETs": set(ets), "Keeper": set(keeper), "Kinds": list(kinds or ["sp"] * nfd),
             "Acts": set(acts), "D": D, "AvoidKnown": avoid}
 
 
@@ -84,7 +84,7 @@ FDMAPS = ([21, 70, 33], [150, 22, 64], [63, 65, 300])
 def drv_cfg(c, *, mode="snap", sigfd=0, fdmap=0, kinds=None):
     n = c["NFd"]
     return {"backend": c["Backend"], "sigfd": sigfd, "mode": mode, "fdnum": FDMAPS[fdmap % len(FDMAPS)][:n],
-            "kind": list(kinds or ["sp"] * n), "keeper": sorted(c["Keeper"])}
+            "kind": list(kinds or c["Kinds"]), "keeper": sorted(c["Keeper"])}
 
 
 def build_driver():
@@ -113,3 +113,47 @@ def replay_c05(chk, exe, hists, c, *, label, variants, limit_fail=3):
             vkit.log("[replay] %s %s: %d/%d failed; first: %s" % (label, c["Backend"], len(fails), len(hists), fails[0][2][:400]))
         nfail += len(fails)
     return nfail
+
+
+# ---------------------------------------------------------------- C04 (binding V)
+ENV_OPS = ("pw", "drain", "fill", "pdrain", "pshut", "pclose", "prst")
+
+
+def run_real(exe, hists, c, backend, sigfd, fdmap=0):
+    dc = dict(drv_cfg(c, mode="real", sigfd=sigfd, fdmap=fdmap), backend=backend)
+    outs = vkit.run_driver(exe, [{"cfg": dc, "h": strip_obs(h)} for h in hists], timeout=300)
+    return dc, outs
+
+
+def trace_events(h, out, n):
+    """ndjson events of one execution (scenario number n)."""
+    ev = [{"e": "reset", "n": n}]
+    obs = out["obs"]
+    for s, o in zip(h, obs):
+        a = s["a"]
+        if a == "add":
+            ev.append({"e": "add", "ev": s["e"], "fd": s["fd"], "m": s["m"], "et": s["et"]})
+        elif a == "del":
+            ev.append({"e": "del", "ev": s["e"]})
+        elif a in ("close", "reopen"):
+            ev.append({"e": a, "fd": s["fd"]})
+        elif a == "wait":
+            ev.append({"e": "wait", "p": o["p"], "p2": o["p2"], "rep": [{"fd": r["fd"], "p": r["p"]} for r in o["rep"]],
+                       "cb": [{"e": x["e"], "w": x["w"]} for x in o["cb"]]})
+        else:
+            ev.append({"e": "env", "a": a, "fd": s["fd"]})
+    return ev
+
+
+def validate_trace(name, c, events, timeout=1200):
+    """Run Backend_Trace on the events; returns (TLCResult, verdict records, done?)."""
+    path = os.path.join(workdir(), name + ".ndjson")
+    with open(path, "w") as f:
+        for e in events:
+            f.write(json.dumps(e, separators=(",", ":")) + "\n")
+    cfg = vkit.write_cfg(name, c, invariants=["TraceInv"], init="TInit", next_="TNext")
+    prints = []
+    res = vkit.tlc("Backend_Trace", cfg, env={"TRACE": path}, print_sink=prints.append, workers=1, timeout=timeout)
+    verdicts = [p for p in prints if isinstance(p, dict) and "verdict" in p]
+    done = any(isinstance(p, dict) and "done" in p for p in prints)
+    return res, verdicts, done
